@@ -305,6 +305,12 @@ fn compute_topic_filter_properties(topic: &str) -> TopicFilterProperties {
     properties
 }
 
+#[cfg(feature = "verif")]
+pub(crate) fn verif_topic_filter_properties(filter: &str) -> (bool, bool, bool) {
+    let properties = compute_topic_filter_properties(filter);
+    (properties.is_valid, properties.is_shared, properties.has_wildcard)
+}
+
 pub(crate) fn is_valid_topic_filter_internal(filter: &str, context: &OutboundValidationContext, no_local: Option<bool>) -> bool {
     let topic_filter_properties = compute_topic_filter_properties(filter);
 
